@@ -3,6 +3,7 @@ package checks
 import (
 	"encoding/json"
 	"fmt"
+	"sort"
 	"strings"
 	"testing"
 	"testing/synctest"
@@ -113,11 +114,58 @@ func genC15(seed uint64, tier string) C15Cfg {
 		at := rf.Intn(len(c.Ops) + 1)
 		c.Ops = append(c.Ops[:at:at], append(fl, c.Ops[at:]...)...)
 	}
+	// a sixth of the histories contain a revival: a sender fills its topic allowance, everything stays idle for longer
+	// than the expiry WITHOUT the collector running (no send), the sender then writes to each of those topics again,
+	// and to as many new ones; in the end everything is started. The sender's allowance is what it is: data
+	// of at most limit+1 topics may be there at any one time
+	if rv := prng.Derive(seed, "revive"); rv.Bool(0.17) {
+		snd := uint16(1 + rv.Intn(3))
+		k := c.MaxTopics + 1 + rv.Intn(3)
+		var blk []C15Op
+		first := nextTopic
+		for i := 0; i < k; i++ {
+			blk = append(blk, C15Op{Kind: "recv", Sender: snd, Topic: nextTopic, Burst: 1})
+			nextTopic++
+		}
+		blk = append(blk, C15Op{Kind: "idle", IdleMs: c.ExpireMs + c.SweepMs*rv.Range(1, 3)})
+		for i := 0; i < k; i++ {
+			blk = append(blk, C15Op{Kind: "recv", Sender: snd, Topic: first + i, Burst: 1})
+		}
+		for i := 0; i < k; i++ {
+			blk = append(blk, C15Op{Kind: "recv", Sender: snd, Topic: nextTopic, Burst: 1})
+			nextTopic++
+		}
+		for t := first; t < nextTopic; t++ {
+			blk = append(blk, C15Op{Kind: "send", Topic: t})
+		}
+		at := rv.Intn(len(c.Ops) + 1)
+		c.Ops = append(c.Ops[:at:at], append(blk, c.Ops[at:]...)...)
+	}
 	// finally start everything that is still open, after a few sends that give the GC its chance
 	for _, t := range open {
 		c.Ops = append(c.Ops, C15Op{Kind: "send", Topic: t})
 	}
 	return c
+}
+
+type heldKey struct {
+	sender uint16
+	topic  int
+}
+
+type heldIv struct {
+	sender   uint16
+	topic    int
+	from, to time.Duration
+}
+
+func keysOf(m map[int]bool) []int {
+	var ks []int
+	for k := range m {
+		ks = append(ks, k)
+	}
+	sort.Ints(ks)
+	return ks
 }
 
 type c15Handler struct{ log []string }
@@ -198,6 +246,8 @@ func runC15(t *testing.T, spec RunSpec) *RunResult {
 			ForwardSend:    func(uint8, []byte, []byte, ...tss.UniversalID) {},
 			MessageHandler: h}
 		topics := map[int]*c15Topic{}
+		held := map[heldKey][2]time.Duration{} // (sender, topic) -> [arrival of the oldest released message, release] of the send being judged
+		var allHeld []heldIv                   // the same for all sends so far
 		var sendTimes []time.Duration
 		viol := func(class, detail string) {
 			if len(res.Violations) == 0 {
@@ -401,6 +451,11 @@ func runC15(t *testing.T, spec RunSpec) *RunResult {
 						}
 						if n > 0 {
 							res.Probes["released"]++
+							// the message was in the buffer from its arrival until now
+							k := heldKey{m.sender, op.Topic}
+							if iv, ok := held[k]; !ok || m.at < iv[0] {
+								held[k] = [2]time.Duration{m.at, x}
+							}
 						} else {
 							res.Probes["not-released"]++
 						}
@@ -419,6 +474,30 @@ func runC15(t *testing.T, spec RunSpec) *RunResult {
 				tp.lastSentAt = x
 				tp.msgs = nil
 				tp.eras = nil
+				// the number of topics a sender has data buffered for at any one time stays within the limit, give or
+				// take one: what is released was in the buffer from its arrival until its release
+				touched := map[uint16]bool{}
+				for k, iv := range held {
+					allHeld = append(allHeld, heldIv{k.sender, k.topic, iv[0], iv[1]})
+					touched[k.sender] = true
+					delete(held, k)
+				}
+				for snd := range touched {
+					for _, p := range allHeld {
+						if p.sender != snd {
+							continue
+						}
+						together := map[int]bool{}
+						for _, q := range allHeld {
+							if q.sender == snd && q.from <= p.from && p.from < q.to {
+								together[q.topic] = true
+							}
+						}
+						if len(together) > cfg.MaxTopics+1 && len(res.Violations) == 0 {
+							viol("topic-limit-exceeded", fmt.Sprintf("sender %d had data buffered for %d topics at the same time (at %v; every one of them was released later), the limit is %d (give or take one): topics %v", snd, len(together), p.from, cfg.MaxTopics, keysOf(together)))
+						}
+					}
+				}
 			}
 		}
 		res.Actions = acts
